@@ -35,6 +35,11 @@ from .errors import (
 from .regex import RegexTimeoutError
 
 
+# Script code run from inside a native (callbacks, accessors, conversions, call/apply)
+# nests an interpreter loop on the host stack; this many levels are allowed before the
+# evaluation is stopped with MemoryLimitError instead of overflowing the host stack.
+MAX_NATIVE_DEPTH = 100
+
 # Verification hook: stays None (one comparison per instruction) unless a
 # harness installs a callback while MICROJS_VERIF=1 is set in the environment.
 _verif_hook = None
@@ -169,6 +174,7 @@ class VM:
 
         self.start_time: Optional[float] = None
         self.instruction_count = 0
+        self.native_depth = 0  # nested interpreter loops on the host stack
 
         # Exception handling
         self.exception: Optional[JSValue] = None
@@ -2344,6 +2350,20 @@ class VM:
         self, callback: JSValue, args: List[JSValue], this_val: JSValue = None
     ) -> JSValue:
         """Call a callback function synchronously and return the result."""
+        if not isinstance(callback, JSFunction):
+            return self._run_callback(callback, args, this_val)
+        if self.native_depth >= MAX_NATIVE_DEPTH:
+            raise MemoryLimitError("Maximum call stack size exceeded")
+        self.native_depth += 1
+        try:
+            return self._run_callback(callback, args, this_val)
+        finally:
+            self.native_depth -= 1
+
+    def _run_callback(
+        self, callback: JSValue, args: List[JSValue], this_val: JSValue = None
+    ) -> JSValue:
+        """Run a callback in a nested interpreter loop until it returns."""
         if isinstance(callback, JSFunction):
             # Save current stack position AND call stack depth
             stack_len = len(self.stack)
